@@ -1,6 +1,8 @@
 """Call dispatch.  A call is never inlined silently:
    contract  >  catalog external / builtin model  >  explicitly inlined helper  >  havoc (unknown callee)."""
 import ast
+import os
+import sys
 import z3
 
 from . import loader
@@ -106,6 +108,9 @@ def unknown_call(ex, state, name, args, kwargs, self_val):
     """Unknown callee: result opaque, every declared (shaped) object reachable is havocked, any
     Exception may escape.  Sound; in practice the caller's obligations then fail to prove => undecided."""
     ex.notes["havoc_calls"].add(name)
+    if os.environ.get("PYVC_TRACE_HAVOC"):
+        import traceback
+        sys.stderr.write("havoc call %s args=%r\n%s\n" % (name, args, "".join(traceback.format_stack(limit=14))))
     havoc_all(ex, state)
     b = z3.Bool(fresh_name("unk_raises"))
     rs = state.copy()
